@@ -241,7 +241,7 @@ Definition step (s : st) (o : op) : st * outcome :=
     | None => (s, Err MissingColl)
     | Some Calib =>
       match key_of s d with
-      | None => (s, Err Conflict)
+      | None => (s, Err Integrity)       (* FOREIGN KEY dataset_calibs -> dataset: a raw IntegrityError *)
       | Some k =>
         if existsb (fun p => (fst (fst p) =? c) &&
                              match key_of s (snd (fst p)) with Some k' => k' =? k | None => false end &&
